@@ -162,6 +162,16 @@ def run(ctx):
     # a sized link read waits for all of its bytes whatever the record / segment boundaries (rule R13.1): a PDU split over two TLS records is not truncated
     ctx.include(c13.run, ('R13.1', 'R13.5', 'R13.7'), 'R20.6')
 
+    # ---- R20.10 one readiness notification = at most one blocking read: RdpClient::read takes exactly one PDU from the MCS layer per call and does
+    # not loop.  The receive thread calls it with the shared client locked, after select() reported data; a second mcs.read() inside the same call
+    # (skipping a PDU on another channel, retrying) blocks until the server speaks again with the mutex held, which stalls the GUI thread's input
+    # writes and its shutdown -----------------------------------------------------------------------------------------------------------------
+    rr = ctx.body('core::client::RdpClient::<S>::read')
+    mr = [c for c in rr.calls if c.callee == 'core::mcs::Client::<S>::read']
+    ctx.check(len(mr) == 1 and not rr.in_cycle(mr[0].block), 'R20.10', 'client_read:one_pdu', 'RdpClient::read performs exactly one mcs read, outside any loop', rr.where(),
+              'RdpClient::read can perform more than one blocking mcs::Client::read per call (%d call site(s)%s): after select() reported one PDU the receive '
+              'thread would block inside read with the client mutex held' % (len(mr), ', in a loop' if any(rr.in_cycle(c.block) for c in mr) else ''))
+
     # ---- R20.9 silence is not the end of the session: the readiness wait has no timeout whose expiry would leave the loop ---------
     wf = ctx.body('mstsc_rs::wait_for_fd')
     sel = [c for c in wf.calls if c.callee.rsplit('::', 1)[-1] == 'select']
